@@ -97,3 +97,19 @@ Proof.
   intros. rewrite !load_history_independent, !map_app. cbn [map fst snd].
   rewrite !nth_error_app2 by (rewrite map_length; lia). rewrite !map_length, Nat.sub_diag. reflexivity.
 Qed.
+
+(* ------------------------------------------------------------------ mapping's own format front ends *)
+
+(* mapping.UnmarshalYamlBytes / UnmarshalTomlBytes (= encoding.YamlToJson / TomlToJson, then the
+   unmarshaller with EXACT keys, no conf layer) against mapping.UnmarshalJsonBytes, on the trees *)
+Lemma mapping_sim : forall rf f T m,
+  f <> FJson -> fam_fields T = true -> leaves_ok_map rf m = true -> flok_fields T m = true ->
+  rsim gsim (unmarshal fixed jcfg T (Some (shape rf f (DMap m)))) (unmarshal fixed jcfg T (Some (shape rf FJson (DMap m)))).
+Proof.
+  intros rf f T m Hf Hfam Hl Hpos.
+  change (shape rf f (DMap m)) with (JObj (shape_map rf f m)).
+  change (shape rf FJson (DMap m)) with (JObj (shape_map rf FJson m)).
+  unfold unmarshal. apply rsim_rmap with (R := Forall2 gsim).
+  - destruct (main_mutual_cfg rf f Hf false) as [_ HP]. apply (HP T); assumption.
+  - intros a b Hab. constructor. exact Hab.
+Qed.
